@@ -50,6 +50,13 @@ Definition queries {Q : Type} (q : Q) (r c n : nat) : list (nat * Q) :=
 Definition effective (n : nat) (sub : option (list nat)) : list nat :=
   match sub with None => seq 0 n | Some l => l end.
 
+(** * The context handed to an upstream:
+    [context.WithTimeout(context.Background(), queryTimeout)] created by the helper
+    goroutine. Time left (ns) on it at its creation, given the time left on the
+    caller's context ([None] = the caller has no deadline): the caller's deadline
+    plays no part. *)
+Definition upstream_deadline (caller : option Z) : Z := forward_query_timeout.
+
 (** * Worker: what one goroutine reports for what its upstream did *)
 Inductive uout :=
 | UMsg (rcode tag : N)   (* bytes that unpack to a message with this rcode; [tag] identifies it *)
